@@ -152,6 +152,23 @@ impl Doc {
         Some(cur)
     }
 
+    /// every value the path can denote (several when objects repeat a key)
+    pub fn resolve_all(&self, path: &[Step]) -> Vec<&Doc> {
+        let mut cur: Vec<&Doc> = vec![self];
+        for st in path {
+            let mut next: Vec<&Doc> = vec![];
+            for d in cur {
+                match (st, d) {
+                    (Step::Key(k), Doc::Map(m)) => next.extend(m.iter().filter(|(k2, _)| k2 == k).map(|(_, v)| v)),
+                    (Step::Index(i), Doc::Seq(v)) => next.extend(v.get(*i)),
+                    _ => {}
+                }
+            }
+            cur = next;
+        }
+        cur
+    }
+
     pub fn resolve_mut(&mut self, path: &[Step]) -> Option<&mut Doc> {
         let mut cur = self;
         for st in path {
